@@ -211,12 +211,12 @@ func init() {
 			}
 			for i, uc := range selUpdConfigs() {
 				if c.Mine(i) {
-					hx.Explore("C12", selUpdScenario(uc), hx.ExploreCfg{Bound: envBound(delayBound(c, 2)), Delay: true, Prune: true, Deadline: c.Deadline}, c.Res)
+					hx.Explore("C12", selUpdScenario(uc), hx.ExploreCfg{Bound: envBound(delayBound(c, 2+thoroughExtra(c))), Delay: true, Prune: true, Deadline: c.Deadline}, c.Res)
 				}
 			}
 			for i, ec := range selEMConfigs() {
 				if c.Mine(i) {
-					hx.Explore("C12", selEMScenario(ec), hx.ExploreCfg{Bound: envBound(delayBound(c, 2)), Delay: true, Prune: true, Deadline: c.Deadline}, c.Res)
+					hx.Explore("C12", selEMScenario(ec), hx.ExploreCfg{Bound: envBound(delayBound(c, 2+thoroughExtra(c))), Delay: true, Prune: true, Deadline: c.Deadline}, c.Res)
 				}
 			}
 		},
